@@ -11,7 +11,8 @@ structure Defects where
   updateKeepsInserterXmin : Bool := false
   /-- `Snapshot::is_committed_before_snapshot`: with `xmax = None` (no transaction with id > 0 had committed when
       the snapshot was taken) every id that is not in the active/aborted sets counts as committed
-      (coordinator.rs:180-184). -/
+      (coordinator.rs:180-184).  Since af2ef76 the coordinator never constructs such a snapshot; only
+      `Snapshot::new(.., None, ..)` does. -/
   xmaxNoneSeesAll : Bool := false
   /-- `parse_for_snapshot` tests only "deleter committed before the snapshot" before giving up on the newest version;
       a row deleted by the reader itself falls through to the delta walk and an older version comes back
